@@ -190,6 +190,21 @@ def r2_pairing(ctx, hugr, file) -> None:
     op_p, par_p = params[1], params[2]
     ok_reuse = ok_fresh = ok_par = ok_data = ok_req = bool(ps)
     seen = {"reuse": False, "fresh": False, "par": False}
+
+    def length_read_after_append() -> bool:
+        """in the canonical body: the table length is read only in the arm without a free index, only after that arm's append, and
+        only as `len(self._nodes) - 1` (the index the appended entry got)"""
+        cf_ = ctx.cfn(f"{HQ}._add_node", subst=False)
+        arms = [s_ for s_ in ast.walk(cf_) if isinstance(s_, ast.If) and u(s_.test) in ("self._free_nodes", "len(self._free_nodes) > 0")]
+        if len(arms) != 1 or not arms[0].orelse:
+            return False
+        arm = arms[0].orelse
+        ia = [i for i, s_ in enumerate(arm) if any(call_name(c) == "append" and u(c.func) == "self._nodes.append" for c in calls_in(s_))]
+        reads_all = [n for n in ast.walk(cf_) if isinstance(n, ast.Call) and u(n) == "len(self._nodes)"]
+        reads_arm = [(i, n) for i, s_ in enumerate(arm) for n in ast.walk(s_) if isinstance(n, ast.Call) and u(n) == "len(self._nodes)"]
+        minus1 = {id(n.left) for n in ast.walk(cf_) if isinstance(n, ast.BinOp) and isinstance(n.op, ast.Sub) and isinstance(n.right, ast.Constant) and n.right.value == 1}
+        return len(ia) == 1 and bool(reads_arm) and len(reads_arm) == len(reads_all) and all(i > ia[0] and id(n) in minus1 for i, n in reads_arm)
+    after_append = None
     for p in ps:
         nonempty = [k for t, k in p.tests if u(t) in ("self._free_nodes", "len(self._free_nodes) > 0", "0 < len(self._free_nodes)")]
         pops = _prim(p, "self._free_nodes.pop")
@@ -210,6 +225,14 @@ def r2_pairing(ctx, hugr, file) -> None:
                                                                           or tmatch(p.value, T("Node(old_(len(self._nodes)), ANY_, ANY_)")) is not None
                                                                           or tmatch(p.value, T("Node(old_(len(self._nodes)), ANY_)")) is not None
                                                                           or tmatch(p.value, T("Node(old_(len(self._nodes)))")) is not None)
+            if not good and bool(nonempty) and not pops and len(apps) == 1 and not stores and p.kind == "return" and p.value is not None:
+                # the other order: append first, then the handle from the length less one
+                from ..rulekit import unold
+                pv = ast.parse(unold(p.value), mode="eval").body
+                if pv is not None and any(tmatch(pv, T(t_)) is not None for t_ in ("Node(len(self._nodes) - 1, ANY_, ANY_)", "Node(len(self._nodes) - 1, ANY_)", "Node(len(self._nodes) - 1)")):
+                    if after_append is None:
+                        after_append = length_read_after_append()
+                    good = after_append
             ok_fresh = ok_fresh and good
             data = apps[0][1].args[0] if apps and apps[0][1].args else None
         e = tmatch(data, T("NodeData(E_op, E_parent, metadata=E_meta)")) if data is not None else None
